@@ -18,7 +18,7 @@ RULE = (
     'shapes of lower rank / size 1 against the input batch; distinct = (kernel, batch pattern, index kinds); non-trivial iff the expression '
     'selects >=1 and fewer than all entries (relational cells always)'
 )
-REQUIRED = ["lazy_equals_eager", "lazy_index", "diag_equals_diagonal", "transpose", "stacked_blocks", "kernel_getitem", "expand_batch", "path:lazy_getitem"]
+REQUIRED = ["lazy_equals_eager", "lazy_index", "index_then", "diag_equals_diagonal", "transpose", "stacked_blocks", "kernel_getitem", "expand_batch", "path:lazy_getitem"]
 ASSUMPTIONS = ["torch dense indexing D[idx] is the reference semantics of an index expression"]
 ANCHOR_FILES = ["gpytorch/lazy/lazy_evaluated_kernel_tensor.py", "gpytorch/kernels/kernel.py", "gpytorch/kernels/"]
 
@@ -125,6 +125,23 @@ def cases(tier, seed):
                 if xb2 is not None:
                     c["xbatch2"] = xb2
                 yield c
+    yield from _chain_cases(tier, rnd)
+
+
+SLICES = [[0, 8, 2], [0, 4, 1], [4, 8, 1], [1, 5, 1], [1, 8, 2], [2, 6, 1], [0, 8, 1], [0, 8, 3], [0, 3, 1]]
+
+
+def _chain_cases(tier, rnd):
+    """an index expression followed by another operation on the result (transpose, diagonal, a second index): the
+    sliced operator's inputs are views of the original inputs - same storage, other strides"""
+    for name in KERNELS:
+        if _nout(name) > 1 or name == "lcm":
+            continue
+        for pb, xb in [([], []), ([2], [2]), ([2], [])]:
+            if tier == "quick" and (pb or xb) and rnd.random() < 0.6:
+                continue
+            for same in (True, False):
+                yield {"kind": "chain", "kernel": name, "pbatch": pb, "xbatch": xb, "n1": 8, "n2": 8, "same": same, "seed": rnd.randrange(10**6)}
 
 
 def _bshape(pb, xb):
@@ -155,6 +172,8 @@ def _data(case, g):
         x2 = x2 / x2.norm(dim=-1, keepdim=True) * (0.1 + 0.8 * util.rand(g, *x2.shape[:-1], 1))
         x1[..., 0, :] = 0.0
         x2[..., -1, :] = 0.0
+    if case.get("same"):
+        x2 = x1
     return x1, x2
 
 
@@ -174,6 +193,8 @@ def run_case(case, ctx):
         with torch.no_grad():
             with S.lazily_evaluate_kernels(False):
                 D = kern(x1, x2).to_dense()
+            if case["kind"] == "chain":
+                return _chain(case, ctx, kern, x1, x2, D, g)
             if case["kind"] == "index":
                 return _index(case, ctx, kern, x1, x2, D)
             return _relations(case, ctx, kern, x1, x2, D, g)
@@ -215,6 +236,47 @@ def _index(case, ctx, kern, x1, x2, D):
             continue
         ctx.close("lazy_index", got, ref, "direct", cls=case["kernel"], idx=expr, kinds=kinds, negint=negint, detail=f"idx={expr}")
         ctx.cell({"kernel": case["kernel"], "pb": case["pbatch"], "xb": case["xbatch"], "xb2": case.get("xbatch2"), "kinds": kinds}, nontrivial=0 < ref.numel() < total or ref.dim() < D.dim())
+
+
+def _chain(case, ctx, kern, x1, x2, D, g):
+    import itertools
+
+    import torch
+
+    name = case["kernel"]
+    mk = (lambda: kern(x1)) if case["same"] and case["seed"] % 2 else (lambda: kern(x1, x2))
+    tag = name + (":same" if case["same"] else ":two_inputs")
+    pairs = list(itertools.product(SLICES, SLICES))
+    if ctx.tier == "quick":
+        pairs = [pairs[i] for i in torch.randperm(len(pairs), generator=g)[:14].tolist()] + [([0, 8, 2], [0, 4, 1]), ([0, 4, 1], [0, 8, 2])]
+    for r, c in pairs:
+        rs, cs = slice(*r), slice(*c)
+        ref = D[..., rs, cs]
+        square = ref.shape[-1] == ref.shape[-2]
+        try:
+            sub = mk()[..., rs, cs]
+            ctx.close("index_then", _dense(sub.mT if hasattr(sub, "mT") else sub.transpose(-1, -2)), ref.transpose(-1, -2), "direct", cls=tag + ":transpose", idx=[r, c])
+            ctx.close("index_then", _dense(mk()[..., rs, cs].transpose(-1, -2)[..., 1:, :]), ref.transpose(-1, -2)[..., 1:, :], "direct", cls=tag + ":transpose_index", idx=[r, c])
+            if square:
+                ctx.close("index_then", _dense(mk()[..., rs, cs].diagonal(dim1=-1, dim2=-2)), torch.diagonal(ref, dim1=-2, dim2=-1), (1e-7, 1e-7), cls=tag + ":diagonal", idx=[r, c])
+                ctx.close("index_then", _dense(mk()[..., rs, cs].transpose(-1, -2).diagonal(dim1=-1, dim2=-2)), torch.diagonal(ref, dim1=-2, dim2=-1), (1e-7, 1e-7), cls=tag + ":transpose_diagonal", idx=[r, c])
+            v = torch.linspace(-1.0, 1.0, ref.shape[-1], dtype=ref.dtype).unsqueeze(-1)
+            ctx.close("index_then", mk()[..., rs, cs] @ v, ref @ v, (1e-7, 1e-7), cls=tag + ":matmul", idx=[r, c])
+            ctx.close("index_then", _dense(mk()[..., rs, cs][..., ::2, 1:]), ref[..., ::2, 1:], "direct", cls=tag + ":index", idx=[r, c])
+        except Exception as e:
+            ctx.fail("index_then", f"lazy[..., {r}, {c}] followed by an operation raised {type(e).__name__}: {str(e)[:120]}", "raise", exc=type(e).__name__, idx=[r, c])
+    # the same thing asked of the kernel directly: views of one tensor as the two inputs
+    vp = list(itertools.product(SLICES[:5], SLICES[:5]))
+    if ctx.tier == "quick":
+        vp = [vp[i] for i in torch.randperm(len(vp), generator=g)[:8].tolist()] + [([0, 8, 2], [0, 4, 1])]
+    for r, c in vp:
+        a_, b_ = x1[..., slice(*r), :], x2[..., slice(*c), :]
+        ref = D[..., slice(*r), slice(*c)]
+        ctx.close("index_then", kern(a_, b_).to_dense(), ref, (1e-7, 1e-7), cls=tag + ":views_as_inputs", idx=[r, c])
+        ctx.close("index_then", kern(a_, b_).transpose(-1, -2).to_dense(), ref.transpose(-1, -2), (1e-7, 1e-7), cls=tag + ":views_as_inputs:transpose", idx=[r, c])
+        if ref.shape[-1] == ref.shape[-2]:
+            ctx.close("index_then", _dense(kern(a_, b_).diagonal(dim1=-1, dim2=-2)), torch.diagonal(ref, dim1=-2, dim2=-1), (1e-7, 1e-7), cls=tag + ":views_as_inputs:diagonal", idx=[r, c])
+    ctx.cell({"kind": "chain", "kernel": name, "pb": case["pbatch"], "xb": case["xbatch"], "same": case["same"]})
 
 
 def _relations(case, ctx, kern, x1, x2, D, g):
